@@ -134,7 +134,8 @@ class L2Cost(BaseCost):
         self._mean = self._check_param(self.param, X)
 
         self.sums_ = col_cumsum(X, init_zero=True)
-        self.sums2_ = col_cumsum(X**2, init_zero=True)
+        # Squared in float64: integer input would overflow in its own dtype.
+        self.sums2_ = col_cumsum(np.square(X, dtype=np.float64), init_zero=True)
 
         return self
 
